@@ -1258,6 +1258,61 @@ def rule_py_varint_constants(out):
         out.undecided(rid, "anchor/varint routines", rel, "no literal found in the varint routines")
 
 
+def rule_py_length_prefix_measures_payload(out):
+    rid = "PL1"
+    out.rule(rid, "_binary.py: where a length prefix `write_unsigned_varint(len(X))` is followed by `write_bytes(Y)` in the same function, Y is X — the count written is the count "
+                  "of the bytes written (the UTF-8 bytes of a string, not its characters)", 1)
+    tree, rel = parse_py(out, "_binary.py")
+    n = 0
+    for fn in ast.walk(tree):
+        if not isinstance(fn, ast.FunctionDef):
+            continue
+        measured = None  # (expression text, node)
+        for node in ast.walk(fn):
+            pass
+        # statement order inside the function body (top level and nested blocks, in source order)
+        calls = sorted((c for c in ast.walk(fn) if isinstance(c, ast.Call) and isinstance(c.func, ast.Attribute)), key=lambda c: (c.lineno, c.col_offset))
+        for c in calls:
+            if c.func.attr == "write_unsigned_varint" and c.args and isinstance(c.args[0], ast.Call) and isinstance(c.args[0].func, ast.Name) and c.args[0].func.id == "len" and c.args[0].args:
+                measured = (ast.unparse(c.args[0].args[0]), c)
+            elif c.func.attr == "write_bytes" and c.args and measured is not None:
+                n += 1
+                payload = ast.unparse(c.args[0])
+                out.check(payload == measured[0], rid, "%s/len(%s) then write_bytes#%d" % (fn.name, measured[0], n), pos(rel, c), "the payload is what was measured",
+                          "the prefix is len(%s) but the bytes written are %s: for a string with non-ASCII characters the reader takes too few bytes and everything after it is decoded from the wrong "
+                          "position" % (measured[0], payload))
+                measured = None
+    if n == 0:
+        out.undecided(rid, "anchor/length prefix", rel, "no length-prefixed write_bytes found")
+
+
+def rule_py_row_major(out):
+    rid = "PF1"
+    out.rule(rid, "_ndjson.py, _binary.py: arrays are flattened and rebuilt in C (row-major) order: no reshape / ravel / flatten / tobytes / array construction with an `order` other "
+                  "than 'C', no asfortranarray", 1)
+    n = 0
+    for fname in ("_ndjson.py", "_binary.py"):
+        tree, rel = parse_py(out, fname)
+        for c in ast.walk(tree):
+            if not isinstance(c, ast.Call):
+                continue
+            name = c.func.attr if isinstance(c.func, ast.Attribute) else c.func.id if isinstance(c.func, ast.Name) else ""
+            if name == "asfortranarray":
+                n += 1
+                out.bad(rid, "%s/asfortranarray#%d" % (fname, n), pos(rel, c), "column-major copy in the serialization path: elements reach the wire in another order than the documented row-major one")
+                continue
+            if name not in ("reshape", "ravel", "flatten", "tobytes", "array", "asarray", "ascontiguousarray", "frombuffer", "empty", "zeros", "copy"):
+                continue
+            n += 1
+            order = next((k.value for k in c.keywords if k.arg == "order"), None)
+            ok = order is None or (isinstance(order, ast.Constant) and order.value == "C")
+            out.check(ok, rid, "%s/%s#%d" % (fname, name, n), pos(rel, c), "C order",
+                      "`%s(..., order=%s)`: for an array that is not C-contiguous the elements are taken in memory order, not in the row-major order the format documents (the shape written is "
+                      "unchanged, so the reader rebuilds a transposed array)" % (name, ast.unparse(order) if order is not None else "?"))
+    if n == 0:
+        out.undecided(rid, "anchor/array calls", "tooling/internal/python/static_files", "no reshape/ravel/flatten call found")
+
+
 def _outcomes(stmts):
     """how a statement list can end: subset of {'raise', 'return', 'fall', 'jump'}"""
     out = set()
@@ -1823,14 +1878,14 @@ def rule_py_refill_scope(out):
 
 RULES = {
     "C07": [rule_py_mixins_have_no_public_methods],
-    "C02": [rule_json_kinds, rule_ndjson_sentinel, rule_union_dispatch, rule_py_optional_identity, rule_py_fraction_padded],
-    "C03": [rule_link, rule_py_wire_table, rule_py_capacity, rule_py_no_alias, rule_py_stream_blocks, rule_py_optional_identity, rule_ndjson_sentinel, rule_py_fraction_padded, rule_py_varint_constants],
+    "C02": [rule_json_kinds, rule_ndjson_sentinel, rule_union_dispatch, rule_py_optional_identity, rule_py_fraction_padded, rule_py_row_major],
+    "C03": [rule_link, rule_py_wire_table, rule_py_capacity, rule_py_no_alias, rule_py_stream_blocks, rule_py_optional_identity, rule_ndjson_sentinel, rule_py_fraction_padded, rule_py_varint_constants, rule_py_length_prefix_measures_payload, rule_py_row_major],
     "C08": [rule_link],
     "C15": [rule_py_headers, rule_ndjson_key_order],
     "C16": [rule_py_eof, rule_py_refill_scope, rule_py_no_swallowed_eof],
     "C17": [rule_py_stream_blocks, rule_py_no_alias],
     "C04": [rule_py_headers, rule_py_write_order, rule_ndjson_key_order],
-    "C01": [rule_py_wire_table, rule_py_stream_blocks, rule_py_write_order, rule_py_no_alias, rule_py_varint_constants],
+    "C01": [rule_py_wire_table, rule_py_stream_blocks, rule_py_write_order, rule_py_no_alias, rule_py_varint_constants, rule_py_length_prefix_measures_payload],
 }
 
 
